@@ -22,14 +22,16 @@ def component_errors(t):
     return out
 
 
-def build_batch(ver, models, open_content=None):
+def build_batch(ver, models, open_content=None, wrap=None):
     """Build one schema (lax) holding one global element r<i> per model.  Returns
     (schema, [model_error_messages or None per model], [other error messages per model])."""
     cls = schema_class(ver)
-    s = cls(cm.schema_text(models, open_content), validation='lax')
+    s = cls(cm.schema_text(models, open_content, wrap), validation='lax')
     merr, other = [], []
     for i in range(len(models)):
         t = s.elements['r%d' % i].type
+        if wrap == 'group-local':
+            t = [e for e in s.groups['W%d' % i].iter_elements() if e.local_name == 'loc'][0].type
         me, ot = [], []
         for e in component_errors(t):
             (me if isinstance(e, xmlschema.XMLSchemaModelError) else ot).append(str(e.message))
@@ -38,11 +40,11 @@ def build_batch(ver, models, open_content=None):
     return s, merr, other
 
 
-def strict_build_fails(ver, model, open_content=None):
+def strict_build_fails(ver, model, open_content=None, wrap=None):
     """(fails_with_model_error, other_exception_name or None) for a strict build of one model."""
     cls = schema_class(ver)
     try:
-        cls(cm.schema_text([model], open_content))
+        cls(cm.schema_text([model], open_content, wrap))
     except xmlschema.XMLSchemaModelError:
         return True, None
     except xmlschema.XMLSchemaException as e:
